@@ -8,7 +8,7 @@ key list.  The nested-dictionary model of the property is stated through its obs
 `readK` (= const operator[] / getPathValue, `none` = the undefined value), `hasK` (= has) and `size`.
   writes create missing intermediate objects            C25_read_after_write, C25_read_below_write, C25_write_creates_intermediates,
                                                          C25_write_frame, C25_write_through_leaf_fails
-  reads of missing paths are undefined, create nothing  C25_read_missing_undefined, C25_has_of_defined (reads are
+  reads of missing paths are undefined, create nothing  C25_read_missing_undefined, C25_has_of_defined, C25_has_iff_defined (reads are
                                                          pure functions of the value: nothing can be created)
   the non-const operator[] used as a read               C25_touch_* (exactly what it changes: a placeholder that
                                                          `has` reports and const reads see as undefined)
@@ -71,6 +71,11 @@ theorem C25_has_of_defined (ks : List Bytes) (j : Json) (h : readK ks j ≠ .non
   cases hh : hasK ks j
   · exact absurd (readK_of_not_has ks j hh) h
   · rfl
+
+/-- on a value without undefined placeholders, has() is exactly "the const read is defined" -/
+theorem C25_has_iff_defined (ks : List Bytes) (j : Json) (h : hasNone j = false) :
+    hasK ks j = true ↔ readK ks j ≠ .none :=
+  has_iff_defined ks j h
 
 /-- the non-const operator[] used as a read: the path exists afterwards (has() reports the placeholder) … -/
 theorem C25_touch_has (ks : List Bytes) (j j' : Json) (h : touch ks j = .ok j') : hasK ks j' = true :=
